@@ -1,0 +1,5 @@
+//go:build !verif
+
+package rewriter
+
+func verifKeepStage(string) {}
